@@ -133,6 +133,9 @@ class Run:
 
     # ---- verdicts ------------------------------------------------------------
     def violation(self, prop, payload, text):
+        if len(self.violations) >= 12:      # enough replay files for one run
+            self.violations.append((prop, self.violations[-1][1], text))
+            return
         os.makedirs(REPLAYS, exist_ok=True)
         h = hashlib.sha1(json.dumps(payload, sort_keys=True).encode()).hexdigest()[:10]
         path = os.path.join(REPLAYS, '%s-%s.json' % (prop, h))
